@@ -155,8 +155,10 @@ def configs(tier, seed):
                                                        new=[3, 2])))
         out.append(('ra/%s/adjoint+out/1d' % mode, dict(kind='ra-out', mode=mode, direction='adjoint', old=[5],
                                                           new=[3])))
-        for shp, newshp in ([((3,), (5,)), ((4,), (2,)), ((2, 3), (4, 4)), ((3,), (6,))] if tier == 'quick' else
-                            [((3,), (5,)), ((4,), (2,)), ((2, 3), (4, 4)), ((3, 3), (2, 5)), ((2,), (6,))]):
+        for shp, newshp in ([((3,), (5,)), ((4,), (2,)), ((2, 3), (4, 4)), ((3,), (6,)), ((4,), (7,)), ((2, 3), (2, 5))]
+                            if tier == 'quick' else
+                            [((3,), (5,)), ((4,), (2,)), ((2, 3), (4, 4)), ((3, 3), (2, 5)), ((2,), (6,)), ((4,), (7,)),
+                             ((2, 3), (2, 5)), ((3, 2), (3, 5))]):
             out.append(('op/%s/%s->%s' % (mode, 'x'.join(map(str, shp)), 'x'.join(map(str, newshp))),
                         dict(kind='op', mode=mode, direction='forward', old=list(shp), new=list(newshp))))
     return out
@@ -231,6 +233,31 @@ def case(ctx, kind, mode, direction, old, new, dtype='float64', max_offsets=None
     # ---- ResizingOperator on a discretized space with cell sides 1/2 (and 1/4)
     sides = [0.5, 0.25][:nd]
     space = odl.uniform_discr([0.0] * nd, [n * s for n, s in zip(old, sides)], old)
+    # default offset (none given): the operator's own offset must describe where the domain sits in the range
+    if all(m >= n for n, m in zip(old, new)):
+        opd = odl.ResizingOperator(space, ran_shp=new, pad_mode=mode)
+        offd = tuple(int(o) for o in opd.offset)
+        okd = all(np.allclose(opd.range.grid.coord_vectors[i][offd[i]:offd[i] + n], space.grid.coord_vectors[i])
+                  for i, n in enumerate(old))
+        ctx.fact('default-offset/range-grid-contains-domain-grid-at-op.offset', okd,
+                 'offset %s, range grid %s, domain grid %s' % (offd, opd.range.grid.coord_vectors,
+                                                              space.grid.coord_vectors))
+        if all(legal(n, m, o, mode) for n, m, o in zip(old, new, offd)):
+            xd = ctx.element(space, 'xd')
+            pred = ctx.snapshot(xd).reshape(old)
+            ctx.eq('default-offset/op-rule', opd(xd), reference(pred, new, offd, mode, 0, 'forward'))
+            ctx.eq('default-offset/inverse-after-extend', opd.inverse(opd(xd)), pred)
+    # an axis whose size does not change keeps its geometry whatever offset entry is given for it
+    if nd == 2 and old[0] == new[0] and new[1] > old[1]:
+        for offv in ((1, 1), 1):
+            try:
+                opu = odl.ResizingOperator(space, ran_shp=new, offset=offv, pad_mode=mode)
+            except ValueError:
+                ctx.fact('unchanged-axis/offset=%s/rejected' % (offv,), True)
+                continue
+            ctx.fact('unchanged-axis/offset=%s/keeps-its-grid' % (offv,),
+                     np.allclose(opu.range.grid.coord_vectors[0], space.grid.coord_vectors[0]),
+                     'range grid %s vs domain grid %s' % (opu.range.grid.coord_vectors[0], space.grid.coord_vectors[0]))
     for oi, off in enumerate(offs):
         tag = 'off=%s' % ','.join(map(str, off))
         ok = all(not (m > n) or legal(n, m, o, mode) for n, m, o in zip(old, new, off))
